@@ -35,7 +35,44 @@ def _enum_ok(ctx, label, got, raw, machine=None):
                 conds.append(ctx.implies(cond, not foreign))
         else:
             conds.append(ctx.implies(cond, ctx.eq(obj, raw)))
+            # a code is left raw only if the library has no name for it in this context: every name of its own vocabulary that a
+            # registry confirms and that belongs to this field and machine must be reported by name
+            named = _vocabulary(ctx, label, machine)
+            if named:
+                ctx.check('%s/named-code-not-left-raw' % label, ctx.implies(cond, ctx.land(*[raw != v for v in named])))
     ctx.check('%s/name-or-raw' % label, ctx.land(*conds))
+
+
+FIELD_PREFIX = {'sh_type': 'SHT_', 'p_type': 'PT_', 'e_type': 'ET_', 'e_machine': 'EM_', 'e_version': 'EV_', 'EI_VERSION': 'EV_', 'EI_OSABI': 'ELFOSABI_'}
+_MARKERS = ('LOOS', 'HIOS', 'LOPROC', 'HIPROC', 'LOUSER', 'HIUSER', 'LOSUNW', 'HISUNW', 'NUM')
+_VOCAB = {}
+
+
+def _vocabulary(ctx, label, machine):
+    """codes the library's own enumeration tables name (with a registry-confirmed value) for this field in this machine context"""
+    field = [f for f in FIELD_PREFIX if ('/' + f) in label or label.endswith(f)]
+    if not field:
+        return []
+    pre = FIELD_PREFIX[field[0]]
+    key = (pre, machine)
+    if key not in _VOCAB:
+        EN = ctx.lib('elf.enums')
+        vals = set()
+        for n in dir(EN):
+            d = getattr(EN, n)
+            if not (n.startswith('ENUM') and isinstance(d, dict)):
+                continue
+            for name, v in d.items():
+                if not (isinstance(name, str) and name.startswith(pre) and isinstance(v, int)) or name.rsplit('_', 1)[-1] in _MARKERS:
+                    continue
+                if v not in REG.values(name):
+                    continue
+                own = [p for p in ALL_PREFIXES if name.startswith(p)]
+                if own and not (machine is not None and any(p in MACH_PREFIX.get(machine, ()) for p in own)):
+                    continue
+                vals.add(v)
+        _VOCAB[key] = sorted(vals)
+    return _VOCAB[key]
 
 
 # ------------------------------------------------------------------ H1.1 file header layout
